@@ -109,6 +109,8 @@ type Result struct {
 // Run is the context handed to a check.
 type Run struct {
 	journal string
+	// replaying: the violation a replay run was started for
+	replaying *Violation
 	// progress / current case, for the stall watchdog
 	progress  atomic.Int64
 	curMu     sync.Mutex
@@ -186,6 +188,17 @@ func (r *Run) watchdog(replay bool) {
 		r.curMu.Lock()
 		check, input, choices := r.curCheck, r.curInput, r.curChoice
 		r.curMu.Unlock()
+		if input == nil && replay && r.replaying != nil {
+			// a replay function that did not name its case: the case is the violation being replayed
+			v := *r.replaying
+			v.Check, v.Observed = strings.TrimSuffix(v.Check, "/termination")+"/termination", fmt.Sprintf("no return within %d s", StallSeconds)
+			v.Explanation = "the implementation did not return from this case (infinite loop or deadlock)"
+			fmt.Println("REPLAY: violation reproduced")
+			enc := json.NewEncoder(os.Stdout)
+			enc.SetIndent("", " ")
+			_ = enc.Encode(v)
+			os.Exit(1)
+		}
 		if input == nil {
 			continue // not inside a named case: the harness itself is busy (enumeration, sorting)
 		}
@@ -387,6 +400,7 @@ func MainArgs(args []string, checks map[string]Check) {
 		r.Property = v.Property
 		vsched.DefaultRot = v.MapRot
 		r.known = map[string]bool{} // a replay never hides behind the known list
+		r.replaying = &v
 		go r.watchdog(true)
 		got := c.Replay(r, v)
 		enc := json.NewEncoder(os.Stdout)
